@@ -1,6 +1,7 @@
 package guards
 
 import (
+	"strings"
 	"go/types"
 	"sort"
 
@@ -145,12 +146,24 @@ func (e *Engine) externObligations(a *FuncAn, call *ssa.Call, add func(ssa.Instr
 		}
 	}
 	for _, name := range names {
+		// a method expression T.M used as a function value is called through a synthetic thunk whose first argument
+		// is the receiver; it is the method itself
+		thunk := false
+		for _, sfx := range []string{"$thunk", "$bound"} {
+			if strings.HasSuffix(name, sfx) {
+				thunk = sfx == "$thunk"
+				name = strings.TrimSuffix(name, sfx)
+			}
+		}
 		if reqs, ok := intrinsics[name]; ok {
 			e.noteExtern(name, "intrinsic", "length preconditions checked at every call site")
 			var goals []Goal
 			off := 0
 			if !c.IsInvoke() && c.Signature().Recv() != nil {
 				off = 1 // static method call: the receiver is Args[0]
+			}
+			if thunk {
+				off = 1 // T.M(recv, args…)
 			}
 			for _, r := range reqs {
 				goals = append(goals, Goal{a.LenOf(c.Args[r.arg+off]).plus(-r.min), "len(arg" + string(rune('0'+r.arg)) + ") >= " + itoa(r.min)})
